@@ -34,9 +34,10 @@ RULE = ("seeded random operation histories (create / set accepted+rejected value
         "of all histories up to a fixed length over a reduced alphabet (2 types x arity {1,3} x 3 indices); a history is "
         "non-trivial when the container grows after the attribute was created and a never-written entry is read afterwards; "
         "distinct = distinct (declaration, operation log) hash")
-REQUIRED = {"answers": 150000, "answers/as_array": 2000, "lattice/accept": 3000, "lattice/reject": 2000, "lattice/agree": 300,
-            "lattice/after_rejected_set": 2000, "bounds": 20000, "isolation": 15000, "align": 15000, "registry": 1000,
-            "exhaustive/histories": 5000}
+REQUIRED = {"answers": 100000, "answers/as_array": 2000, "lattice/accept": 3000, "lattice/reject": 2000, "lattice/agree": 100,
+            "lattice/after_rejected_set": 2000, "lattice/inplace_write_back": 1000, "bounds": 20000, "bounds/get_at_len": 1000,
+            "bounds/set_at_len": 1000, "isolation": 10000, "isolation/inplace_on_unset": 1000, "isolation/view_on_unset": 500,
+            "align": 15000, "align/append": 1000, "align/iadd_container": 300, "registry": 1000, "exhaustive/histories": 5000}
 CASE_TIMEOUT = {"quick": 120.0, "thorough": 900.0}
 ASSUMPTIONS = ["integers stay within +-2^53 and strings within the 32 characters (no NUL) that the dense string dtype is documented to hold",
                "sparse attributes are not required to bound-check: out-of-range indices are only presented to the dense storage",
@@ -300,9 +301,9 @@ class Sys:
     def op_set(self, i, shape, comps, how="list"):
         value, seen = self.mkvalue(shape, comps, how)
         verdict, reason = R.expected_write(shape, seen, self.cat, self.k)
-        srccats = "/".join(sorted({str(R.category(c)) for c in seen})) or "empty"
+        srccats = "/".join(sorted({R.category(c) or "other" for c in seen})) or "empty"
         self.log.append("a[%d] = %s%s" % (i, R.show(value) if shape == "seq" else repr(value), "" if shape == "scalar" else " (%s)" % how))
-        self.ctx.cls("write:%s->%s:%s" % (srccats, self.cat, verdict or "not_judged"))
+        self.ctx.cls("write:%s->%s:%s" % (srccats if "/" not in srccats else "mixed", self.cat, verdict or "not_judged"))
         res = {}
         for name, attr in (("sparse", self.sp), ("dense", self.de)):
             ok, r = self.call("lattice", "set", attr.__setitem__, i, value, expect=self.REJECT)
@@ -430,11 +431,8 @@ class Sys:
         self.check_answers("isolation", site, skip=i, focus=i)
         self._adopt(i, site, status)
 
-    def op_grow(self, rng, how, m, other_attrs=False, self_append=False):
-        """append / += list|tuple|set / += container."""
-        opname = {"append": "append", "list": "iadd_list", "tuple": "iadd_tuple", "set": "iadd_set", "container": "iadd_container"}[how]
-        self.log.append({"append": "container.append(e)", "container": "container += %s container of %d%s" % (
-            "the same" if self_append else "another", m, " carrying attributes" if other_attrs else "")}.get(how, "container += %s of %d" % (how, m)))
+    def _apply_growth(self, opname, how, m, other_attrs, self_append):
+        """Grow every container of the system the same way; returns the number of new elements."""
         grown = None
         for c in ([self.cd] if self.shared else [self.cd, self.cs]):      # dense side first
             n_before = len(c)
@@ -462,21 +460,32 @@ class Sys:
                             ob[0] = 4.5
                             oa[m - 1] = self.default_value_for_write()
                 fn = lambda c=c, other=other: c.__iadd__(other)
-            try:
-                self.call("align", opname, fn)
-            except Diverged:
-                # the append itself failed: say whether it left container and attributes misaligned
-                ok, ln = self.call("align", opname, len, self.de)
-                if len(self.cd) != ln:
-                    self.viol("align", opname, "dense_attribute_length_differs_from_container",
-                              "after the failed %s the dense attribute has length %s while its container has %d elements"
-                              % (opname, ln, len(self.cd)), attribute_length=ln, container_length=len(self.cd))
-                raise
+            self.ctx.obs("align", opname)          # the attempt itself is an observation (it may fail)
+            self.call("align", opname, fn)
+        return grown
+
+    def op_grow(self, rng, how, m, other_attrs=False, self_append=False):
+        """append / += list|tuple|set / += container."""
+        opname = {"append": "append", "list": "iadd_list", "tuple": "iadd_tuple", "set": "iadd_set", "container": "iadd_container"}[how]
+        self.log.append({"append": "container.append(e)", "container": "container += %s container of %d%s" % (
+            "the same" if self_append else "another", m, " carrying attributes" if other_attrs else "")}.get(how, "container += %s of %d" % (how, m)))
+        try:
+            grown = self._apply_growth(opname, how, m, other_attrs, self_append)
+        except Diverged:
+            # the append itself failed: say whether it left container and attribute misaligned
+            ok, ln = self.call("align", opname, len, self.de)
+            if len(self.cd) != ln:
+                self.viol("align", opname, "dense_attribute_length_differs_from_container",
+                          "after the failed %s the dense attribute has length %s while its container has %d elements"
+                          % (opname, ln, len(self.cd)), attribute_length=ln, container_length=len(self.cd))
+            raise
         old_n = self.ms.n
         self.ms.grow(grown)
         self.md.grow(grown)
         self.check_align(opname)
         self.check_answers("align", opname, old_n=old_n)
+        if rng.random() < 0.4:
+            self.check_as_array(with_size=rng.random() < 0.5)
         if grown:
             self.grew = True
 
@@ -509,8 +518,15 @@ class Sys:
                 self.check(h is False, "registry", "delete_attribute", "deleted_attribute_still_reported", "has_attribute is True after delete_attribute", got=repr(h))
                 ok, e = self.call("registry", "get_attribute", c.get_attribute, name, expect=(Exception,))
                 self.check(not ok, "registry", "delete_attribute", "deleted_attribute_still_returned", "get_attribute answers after delete_attribute")
+            if rng.random() < 0.4:
+                how, m = rng.choice([("container", 2), ("container", 0), ("list", 1), ("append", 1)])
+                self.log.append("  (meanwhile: %s of %d while the attribute does not exist)" % (how, m))
+                g = self._apply_growth({"container": "iadd_container", "list": "iadd_list", "append": "append"}[how], how, m, rng.random() < 0.5, False)
+                self.ms.grow(g)
+                self.md.grow(g)
             self.create(rng)
             self.check_answers("registry", "recreate")
+            self.check_align("recreate")
 
 
 # ============================================================================= random histories
@@ -734,9 +750,19 @@ def _ex_step(S, rng, op, vals):
             v = vals["A"]
             S.op_set(i, "scalar" if k == 1 else "seq", [v] if k == 1 else list(v), "list")
         elif name == "iadd":
-            S.op_inplace(i, "iadd", vals["x"])
+            ec = S.arith_category(i)        # operand of the category the entry holds (see ASSUMPTIONS)
+            if ec is None:
+                S.check_answers("answers", "read_only")
+            elif ec == "bool":
+                S.op_inplace(i, "ixor", True)
+            else:
+                S.op_inplace(i, "iadd", 2 if ec == "int" else 0.25)
         elif k > 1:
-            S.op_view(i, "setitem", 1, vals["y"])
+            es, ed = R.entry_category(S.ms.get(i)), R.entry_category(S.md.get(i))
+            if es is None or es != ed:
+                S.check_answers("answers", "read_only")
+            else:
+                S.op_view(i, "setitem", 1, {"bool": True, "int": 9, "float": 9.0}[es])
         else:
             S.log.append("v = a[%d]; v += %r" % (i, vals["x"]))
 
@@ -837,7 +863,7 @@ def _run_anchor(desc, ctx):
         ctx.cls("history:ended_at_divergence")
     if S.grew:
         ctx.nontrivial(stable_hash(["anchor", cat, k, desc["container"], desc["layout"], S.log]))
-    if desc["seed"] % 7 == 0:
+    if desc["seed"] in (12, 33):
         ctx.sample({"attribute": "%s x%d, implicit default, %s" % (cat, k, desc["container"]), "history": S.log})
 
 
